@@ -115,7 +115,7 @@ Candidates ==
     \* operations without a reference value in the model (slice by plane, scale along normal, 2D normalise/scale,
     \* implicit-weld normals, colour space, Laplacian along an axis, clear / replace attribute maps, transformer
     \* chains): their result is dropped by the generator, but frame and well-formedness are judged
-    \cup UNION {NoRes("Misc", [kind |-> kd, k |-> 1 + kd % 2]) : kd \in 1..11}
+    \cup UNION {NoRes("Misc", [kind |-> kd, k |-> 1 + (kd % 2)]) : kd \in 1..11}
 
 Init == pool = [s \in Slots |-> NullMesh] /\ hist = <<>>
 
